@@ -33,9 +33,12 @@ def run(ctx):
     r114(ctx)
     r115(ctx)
     r116(ctx)
+    r117(ctx)
     # the hybrid decoder is bypassed only for fastparquet's own single-run layout (shared with C03)
     from . import c03
     c03.r33(ctx, ctx.repo['core'], ctx.repo['api'])
+    c03.r39(ctx, 'R11.8')
+    r119(ctx)
     from . import callsigs as _cs
     _cs.general_rules(ctx, 'R11', ['core', 'encoding', 'writer.make_definitions', 'writer.encode_dict', 'writer.encode_plain', 'writer.convert'])
     ctx.exhaustive = True
@@ -204,3 +207,95 @@ def r115(ctx):
         ok = bool(i_hdr and i_val and i_ver) and i_hdr[0] < i_val[0] < i_ver[0]
     ctx.ob('R11.5', 'writer.make_definitions:RLE-level-run-is-header-plus-value-byte-for-both-page-versions', ok,
            'the run value (1 = defined) must be written before the v1/v2 framing split: %s' % d, wr.loc(md))
+
+
+def r117(ctx, rule='R11.7'):
+    """encoder/decoder duality of the primitive integer codecs (spec constants)"""
+    m = ctx.repo['cencoding']
+    ev = m.func('encode_unsigned_varint')
+    s = src(ev)
+    ctx.ob(rule, 'cencoding.encode_unsigned_varint:7-bit-groups-with-continuation-bit',
+           'while x > 127' in s and 'o.write_byte(x & 127 | 128)' in s and 'x >>= 7' in s and norm(ev.body[-1]) == 'o.write_byte(x)',
+           'low 7 bits first, 0x80 set on all but the last byte', m.loc(ev))
+    rv = m.func('read_unsigned_var_int')
+    s = src(rv)
+    ctx.ob(rule, 'cencoding.read_unsigned_var_int:dual-of-the-encoder',
+           "result |= _cast('int64_t', byte & 127) << shift" in s and 'if byte & 128 == 0' in s and 'shift += 7' in s,
+           'accumulates 7-bit groups, stops at the first byte without 0x80', m.loc(rv))
+    for fn, want in (('zigzag_long', 'return n >> 1 ^ -(n & 1)'), ('zigzag_int', 'return n >> 1 ^ -(n & 1)'),
+                     ('long_zigzag', 'return n << 1 ^ n >> 63')):
+        f = m.func(fn)
+        ctx.ob(rule, 'cencoding.%s:zigzag-formula' % fn, norm(f.body[-1]) == want, norm(f.body[-1]), m.loc(f))
+    wl, rl = m.func('write_list'), m.func('read_list')
+    thr = [norm(x.test) for x in ast.walk(wl) if isinstance(x, ast.If) and norm(x.test).startswith('l >')]
+    ctx.ob(rule, 'cencoding.write_list:short-form-holds-sizes-up-to-14', len(thr) == 4 and set(thr) == {'l > 14'},
+           'list headers: size nibble 0..14, 15 announces a varint size: tests %s' % sorted(set(thr)), m.loc(wl))
+    longs = [norm(c.args[0]) for c in ast.walk(wl) if isinstance(c, ast.Call) and callee(c) == 'output.write_byte' and '240' in norm(c.args[0])]
+    ctx.ob(rule, 'cencoding.write_list:long-form-header-is-0xF0-or-type', sorted(longs) == ['12 | 240', '5 | 240', '8 | 240', '8 | 240'],
+           str(longs), m.loc(wl))
+    s = src(rl)
+    ctx.ob(rule, 'cencoding.read_list:size-and-type-nibbles-read-as-written',
+           'if byte >= 240' in s and 'size = (byte & 240) >> 4' in s and 'typ = byte & 15' in s and 'size = read_unsigned_var_int(data)' in s,
+           '', m.loc(rl))
+    wt, rt = m.func('write_thrift'), m.func('read_thrift')
+    s = src(rt)
+    ctx.ob(rule, 'cencoding.read_thrift:field-header-is-delta-high-nibble-type-low-nibble',
+           'id += (byte & 240) >> 4' in s and 'bit = byte & 15' in s and 'if byte == 0' in s, '', m.loc(rt))
+    s = src(wt)
+    ctx.ob(rule, 'cencoding.write_thrift:field-delta-from-previous-id-and-stop-byte',
+           'delt = i - prev' in s and 'prev = i' in s and norm(wt.body[-1]) == 'output.write_byte(0)', '', m.loc(wt))
+
+
+def r119(ctx, rule='R11.9'):
+    """the byte limit handed to the hybrid decoder is a length of the very buffer it decodes: 0 (length prefix
+    in the stream), `io.len - io.tell()` of the same stream, or the length the stream's buffer was read /
+    decompressed with.  A value count or the length of a different buffer truncates or overruns the decode."""
+    core = ctx.repo['core']
+    n = 0
+    for q, f in core.funcs.items():
+        calls = [c for c in walk_no_nested(f) if isinstance(c, ast.Call) and (callee(c) or '').endswith('read_rle_bit_packed_hybrid')]
+        if not calls:
+            continue
+        defs = {}
+        for st in walk_no_nested(f):
+            if isinstance(st, ast.Assign) and len(st.targets) == 1 and isinstance(st.targets[0], ast.Name):
+                defs.setdefault(st.targets[0].id, []).append(st.value)
+
+        def lengths_of(name, depth=0):
+            """byte lengths with which the buffer behind `name` was produced"""
+            out = set()
+            if depth > 4:
+                return out
+            for v in defs.get(name, []):
+                for c in ast.walk(v):
+                    if not isinstance(c, ast.Call):
+                        continue
+                    cn = callee(c) or ''
+                    if cn.endswith('decompress_data') and len(c.args) >= 2:
+                        out.add(norm(c.args[1]))
+                    elif cn.endswith('.read') and len(c.args) == 1:
+                        out.add(norm(c.args[0]))
+                    elif cn.endswith('NumpyIO') and c.args:
+                        for x in ast.walk(c.args[0]):
+                            if isinstance(x, ast.Name):
+                                out |= lengths_of(x.id, depth + 1)
+                if not out and isinstance(v, ast.Name):
+                    out |= lengths_of(v.id, depth + 1)
+            return out
+        for c in calls:
+            n += 1
+            io = c.args[0] if c.args else kwarg(c, 'io_obj', 0)
+            ln = kwarg(c, 'length', 2)
+            t = norm(ln) if ln is not None else '?'
+            ok = False
+            why = ''
+            if isinstance(ln, ast.Constant) and ln.value in (0, False):
+                ok, why = True, 'length prefix read from the stream'
+            elif isinstance(io, ast.Name) and t in ('%s.len - %s.tell()' % (io.id, io.id),):
+                ok, why = True, 'rest of the same stream'
+            elif isinstance(io, ast.Name):
+                ls = lengths_of(io.id)
+                ok, why = t in ls, 'buffer of %s produced with length(s) %s' % (io.id, sorted(ls))
+            ctx.ob(rule, 'core.%s:hybrid-decode-limit-is-a-length-of-its-own-buffer:%s' % (q, t[:50]), ok,
+                   'read_rle_bit_packed_hybrid(%s, ..., %s, ...): %s' % (norm(io) if io is not None else '?', t, why), core.loc(c))
+    ctx.floor(rule, 'hybrid decode call sites in core', n, 7)
